@@ -160,6 +160,17 @@ def main(rep):
         found = found or f
         validated += v
         total += len(cases)
+        # rewrites of the configuration file of every kind (valid, invalid Lua, ill-typed, a journal that cannot be
+        # opened, a new queue): whatever an operation answers, if it did not stop the daemon it holds the two
+        # descriptors it held before
+        if not found:
+            import check_C16 as c16
+            rcases = c16.reload_cases(rep.tier, rep.seed)[:80 if rep.tier == "quick" else 1200]
+            f, v = wk.run_cases(rep, exe_impl, exe_model, rcases, ["resources", "fault_reported"], what="reloads")
+            found = found or f
+            validated += v
+            total += len(rcases)
+            n += len(rcases)
         # soak: the same round x1, x10, x100 must end with the same number of live blocks and descriptors
         rounds = [1, 10, 100] if rep.tier == "quick" else [1, 10, 100, 400]
         soak = [("soak%d" % r, soak_script(r, rep.seed)) for r in rounds]
@@ -232,7 +243,7 @@ def main(rep):
     nsoak = len(soak) if exe_impl else 0
     rep.cov["input_distribution"] = {"histories": n if exe_impl else 0, "soak_and_burst_runs": nsoak, "event_loop_scripts": total - nsoak - (n if exe_impl else 0)}
     rep.cov["rule"] = ("random mixed histories with the number of descriptors opened by klunok and not closed (wrapped open/close) checked after every operation: "
-                       "2 with a handler loaded, 0 after release; soak: one round of a mixed history (editor exec with ELF interpreter, four damaged editor-named ELF images, plain files, sources replaced by a directory / made unreadable, a history path, "
+                       "2 with a handler loaded, 0 after release; the same over reload histories (valid, invalid, ill-typed rewrites, a journal that cannot be opened, a moved queue); soak: one round of a mixed history (editor exec with ELF interpreter, four damaged editor-named ELF images, plain files, sources replaced by a directory / made unreadable, a history path, "
                        "files whose names hold a tab, a backslash, a newline, a project file, a probe file written and deleted in a project of which nothing was ever stored, a collision, an emptied position file of the history path, a deleted source, a deleted source whose clean-up fails with EACCES, four passes) repeated 1, 10 and 100 times must end with identical counts of live heap "
                        "blocks (wrapped malloc/calloc/realloc/strdup/free) and descriptors, before and after releasing the handler; single bursts of 20 / 140 / 300 (thorough: up to 1100) distinct files due in one pass, and 1 / 10 / 100 rounds of passes that have to wait (a due head superseded by a later save that is not due), must end with identical counts too; the real main() loop over 5-60 scripted events of every "
                        "kind (the daemon's own included): the descriptor of each event is closed exactly once")
